@@ -212,8 +212,9 @@ class Ctx:
   # -- model checking of the specification itself
   def model(self, module, cfg, workers=NCPU, timeout=3600, env=None, coverage=False, simulate=None,
             xmx='6g', must_complete=True, tag=None):
+    extra = ['-seed', str(self.seed)] if simulate else []
     r = run_tlc(module, cfg, self.work, env=env, workers=workers, timeout=timeout, coverage=coverage,
-                simulate=simulate, xmx=xmx, tag=tag)
+                simulate=simulate, xmx=xmx, tag=tag, extra=extra)
     if must_complete and not simulate:
       require_model_ok(r, module)
     self.states += r.distinct
